@@ -19,7 +19,8 @@ are named `@<n>` (the n-th receive op of the case) when known.
     garble <tok> <kind> <pos> | copy <dst> <src> | swap <a> <b> | drop <tok> | plant M|E <src>
     snap | restore
     restart keep|wipe <M-tokens in arrival order, comma separated | ->
-    fault E|M <k>                 the k-th next ReceiveBlob of that wrapped store fails once (0 disarms)
+    fault E|M|I <k>               the k-th next ReceiveBlob of that wrapped store / index.Set of a receive fails once
+    recvover <seg>+               two overlapping receives of one blob: A hangs in the blobs store, B runs, A resumes
 -/
 namespace Pk.Drv.C11
 open Pk Pk.SMap Pk.Encrypt
@@ -207,6 +208,16 @@ def step (d : D) (ws : List String) : D × String :=
     (match segs d rest with | some b => doRecv d false (P.digest b) b | none => (d, "bad-op"))
   | "recvlate" :: rest@(_ :: _) =>
     (match segs d rest with | some b => doRecv d true (P.digest b) b | none => (d, "bad-op"))
+  | "recvover" :: rest@(_ :: _) =>
+    (match segs d rest with
+     | some b =>
+       let ref := P.digest b
+       let d := { d with labels := d.labels.push ref }
+       if !d.up then (d, "down") else
+       let (s', ra, rb) := receiveOverlapping P rsteps psteps d.s ref b
+       let d := sync { d with s := s' }
+       (d, showRes d ra ++ " " ++ showRes d rb)
+     | none => (d, "bad-op"))
   | "recvas" :: r :: rest@(_ :: _) =>
     (match refArg d r, segs d rest with
      | some ref, some b => doRecv d false ref b
@@ -267,6 +278,7 @@ def step (d : D) (ws : List String) : D × String :=
      | some n =>
        if st == "E" then ({ d with s := { d.s with failBlobs := n } }, "ok")
        else if st == "M" then ({ d with s := { d.s with failMeta := n } }, "ok")
+       else if st == "I" then ({ d with s := { d.s with failIndex := n } }, "ok")
        else (d, "bad-op")
      | none => (d, "bad-op"))
   | ["snap"] => ({ d with saved := some (d.s.blobs, d.s.metas) }, "ok")
